@@ -252,10 +252,7 @@ def install_step_shims(chan, root, salt, chunks=CHUNKS, lock_chunks=LOCK_CHUNKS)
 def _describe(ex):
     d = {"result": "exc", "exc": type(ex).__name__, "msg": str(ex)[:200]}
     code = getattr(ex, "code", None)
-    if isinstance(code, str):
-        d["code"] = code
-    elif getattr(ex, "args", None) and isinstance(ex.args[0], str):
-        d["code"] = ex.args[0][:60]
+    d["code"] = code if isinstance(code, str) and type(ex).__name__ == "HedFileError" else type(ex).__name__
     return d
 
 
